@@ -18,7 +18,8 @@ def run_suites(ctx, names, runner=None, relevant=None):
                 ctx.broke("translator", tf[0], tf[1])
         fn = (lambda n=n: (runner or operators.run_suite)(n, ctx.tier, ctx.seed))
         try:
-            r = lib.cached_suite(n, ctx.tier, ctx.seed, fn)
+            # the symbolic suite does not depend on tier or seed: one cache entry serves every check (bin/setup warms it)
+            r = lib.cached_suite(n, "any", 0, fn) if n == "symbolic" else lib.cached_suite(n, ctx.tier, ctx.seed, fn)
         except Exception:
             ctx.broke("correspondence", n + "/harness", traceback.format_exc()[-1200:])
             continue
